@@ -45,6 +45,7 @@ type writeRec struct {
 	Data []byte
 	Err  error
 	Done bool
+	ToClient string // the peer is the relayed address of this real client ("@c2" in the plan)
 }
 
 func (w *SrvWorld) startRealClient(spec ClientSpec) {
@@ -168,8 +169,18 @@ func (w *SrvWorld) execReal(rc *RealClient, op *Op) {
 			return
 		}
 		payload := MakePayload(w.P.Seed, rc.Spec.ID, op)
-		peer := mustUDPAddr(op.A.Peer)
-		wr := &writeRec{T: w.K.Now(), Peer: ustr(peer), Data: payload}
+		var peer *net.UDPAddr
+		toClient := ""
+		if strings.HasPrefix(op.A.Peer, "@") {
+			// the other real client's relayed address: both ends of the path run the library
+			toClient = op.A.Peer[1:]
+			if peer = w.realRelayOf(toClient); peer == nil {
+				return
+			}
+		} else {
+			peer = mustUDPAddr(op.A.Peer)
+		}
+		wr := &writeRec{T: w.K.Now(), Peer: ustr(peer), Data: payload, ToClient: toClient}
 		w.e2eMu.Lock()
 		rc.Writes = append(rc.Writes, wr)
 		w.e2eMu.Unlock()
@@ -253,6 +264,44 @@ func (w *SrvWorld) checkE2E() {
 			}
 			if w.partitioned(wr.T, wr.T+2*sec) {
 				continue // datagrams sent into a partition are lost; what counts is that traffic flows again after it
+			}
+			if wr.ToClient != "" {
+				// client -> own relay -> the other client's relay -> the other client: arrives if the
+				// other client had asked for a permission for the relay IP (by writing to this
+				// one) at least 5 s before, and is still open
+				dst := w.Real[wr.ToClient]
+				if dst == nil || dst.Relay == nil || (dst.Closed && wr.T >= dst.ClosedAt-sec) {
+					continue
+				}
+				permitted := false
+				for _, back := range dst.Writes {
+					if back.ToClient == rc.Spec.ID && back.T+5*sec <= wr.T {
+						permitted = true
+					}
+				}
+				if !permitted {
+					continue
+				}
+				got, from := false, ""
+				for _, r := range dst.Reads {
+					if bytes.Equal(r.Data, wr.Data) {
+						got, from = true, r.From
+					}
+				}
+				me := ""
+				if ua, ok := rc.Relay.LocalAddr().(*net.UDPAddr); ok {
+					me = ustr(ua)
+				}
+				if !got {
+					w.K.Violate(&Violation{Property: "C14", Class: "probe-lost", Key: kv("dir", "c2c", "horizon", horizon(wr.T-rc.allocAt)),
+						Detail: fmt.Sprintf("payload written by %s to the relayed address of %s at %d ns (%.0f s after Allocate) was never read there (WriteTo done=%v err=%v)", rc.Spec.ID, wr.ToClient, wr.T, float64(wr.T-rc.allocAt)/1e9, wr.Done, wr.Err)})
+					break
+				}
+				if from != me {
+					w.K.Violate(&Violation{Property: "C14", Class: "probe-misattributed", Key: kv("dir", "c2c"), Detail: fmt.Sprintf("payload relayed from %s (relayed address %s) was read by %s with address %s", rc.Spec.ID, me, wr.ToClient, from)})
+				}
+				w.K.Stats.Probe("e2e_pair_delivered")
+				continue
 			}
 			got := false
 			for _, p := range w.Peers {
